@@ -76,6 +76,30 @@ func render(v reflect.Value, depth int) string {
 		if v.Kind() == reflect.Interface {
 			return render(v.Elem(), depth+1)
 		}
+		if v.Elem().Kind() == reflect.Struct {
+			// a library object that does not print itself (DaYun, LiuNian, ...): its scalar accessors, never its
+			// fields (they hold pointers, whose addresses differ from run to run)
+			t := v.Type()
+			parts := []string{}
+			for i := 0; i < t.NumMethod(); i++ {
+				mt := t.Method(i)
+				if mt.Type.NumIn() != 1 || mt.Type.NumOut() != 1 || strings.HasPrefix(mt.Name, "Set") {
+					continue
+				}
+				switch mt.Type.Out(0).Kind() {
+				case reflect.Int, reflect.String, reflect.Bool:
+					func() {
+						defer func() {
+							if e := recover(); e != nil {
+								parts = append(parts, mt.Name+"=PANIC")
+							}
+						}()
+						parts = append(parts, mt.Name+"="+render(v.Method(i).Call(nil)[0], depth+1))
+					}()
+				}
+			}
+			return t.Elem().Name() + "{" + strings.Join(parts, ",") + "}"
+		}
 		return fmt.Sprintf("%v", v.Elem().Interface())
 	}
 	return fmt.Sprintf("%v", v.Interface())
